@@ -78,6 +78,16 @@ pub trait Sys: Sized {
     fn show(op: &Self::Op) -> String {
         format!("{op:?}")
     }
+    /// (property, signature) to report when executing `op` kills the process (abort,
+    /// SIGSEGV, SIGBUS, allocation failure).
+    fn abort_verdict(_cfg: &Self::Cfg, _op: &Self::Op) -> (String, String) {
+        ("MACHINERY".into(), "worker_died".into())
+    }
+    /// Per-operation watchdog (milliseconds): a worker that spends longer inside one
+    /// rebuild + apply aborts itself, which the parent reports through `abort_verdict`.
+    fn op_timeout_ms(_cfg: &Self::Cfg) -> u64 {
+        10_000
+    }
 }
 
 /// A history is the list of indices into `ops()` taken at each step (ops() is a
@@ -199,11 +209,39 @@ pub fn worker_loop<S: Sys>(cfg: &S::Cfg, tag: &str) {
     use std::io::{BufRead, Write};
     let root = Scratch::new(tag);
     let wdir = root.worker();
+    // watchdog: an operation that never returns (the library looping forever) must not
+    // hang the exploration
+    static DEADLINE_MS: AtomicU64 = AtomicU64::new(0);
+    let t_start = Instant::now();
+    std::thread::spawn(move || {
+        loop {
+            std::thread::sleep(Duration::from_millis(50));
+            let d = DEADLINE_MS.load(Ordering::Relaxed);
+            if d != 0 && t_start.elapsed().as_millis() as u64 > d {
+                eprintln!("worker watchdog: operation exceeded its time limit, aborting");
+                std::process::abort();
+            }
+        }
+    });
+    let arm = |on: bool| {
+        let d = if on {
+            t_start.elapsed().as_millis() as u64 + S::op_timeout_ms(cfg)
+        } else {
+            0
+        };
+        DEADLINE_MS.store(d, Ordering::Relaxed);
+    };
     let stdin = std::io::stdin();
     let stdout = std::io::stdout();
     for line in stdin.lock().lines() {
         let Ok(line) = line else { break };
-        let hist: Vec<u16> = line
+        // "<hist>" expands all ops; "N <hist>" lists them (without executing any);
+        // "O<i> <hist>" executes only op i.
+        let (mode, rest) = match line.split_once(' ') {
+            Some((m, r)) => (m.to_string(), r.to_string()),
+            None => (String::new(), line.clone()),
+        };
+        let hist: Vec<u16> = rest
             .split(',')
             .filter(|s| !s.is_empty())
             .map(|s| s.parse().expect("index"))
@@ -213,9 +251,27 @@ pub fn worker_loop<S: Sys>(cfg: &S::Cfg, tag: &str) {
             let sys: S = rebuild(cfg, &d, &hist);
             sys.ops(cfg)
         };
+        if mode == "N" {
+            let list: Vec<serde_json::Value> = ops
+                .iter()
+                .map(|op| {
+                    let (p, sg) = S::abort_verdict(cfg, op);
+                    serde_json::json!([S::show(op), p, sg])
+                })
+                .collect();
+            let mut out = stdout.lock();
+            let _ = writeln!(out, "{}", serde_json::Value::Array(list));
+            let _ = out.flush();
+            continue;
+        }
+        let only: Option<usize> = mode.strip_prefix('O').and_then(|s| s.parse().ok());
         let mut results = Vec::new();
-        for op in ops.iter() {
+        for (oi, op) in ops.iter().enumerate() {
+            if only.is_some_and(|o| o != oi) {
+                continue;
+            }
             let d = wdir.fresh();
+            arm(true);
             let r = catch_unwind(AssertUnwindSafe(|| {
                 let mut sys: S = rebuild(cfg, &d, &hist);
                 let step = sys.apply(cfg, op, true);
@@ -223,6 +279,7 @@ pub fn worker_loop<S: Sys>(cfg: &S::Cfg, tag: &str) {
                 let ctr = sys.take_counters();
                 (step, key, ctr)
             }));
+            arm(false);
             match r {
                 Err(p) => {
                     let msg = format!("{}: {}", last_panic_loc(), panic_msg(&p));
@@ -281,9 +338,17 @@ fn spawn_child(engine: &str, spec: &str) -> Child {
 
 impl Child {
     fn ask(&mut self, hist: &[u16]) -> Option<serde_json::Value> {
+        self.ask_mode("", hist)
+    }
+
+    fn ask_mode(&mut self, mode: &str, hist: &[u16]) -> Option<serde_json::Value> {
         use std::io::{BufRead, Write};
         let line: Vec<String> = hist.iter().map(|i| i.to_string()).collect();
-        writeln!(self.stdin, "{}", line.join(",")).ok()?;
+        if mode.is_empty() {
+            writeln!(self.stdin, "{}", line.join(",")).ok()?;
+        } else {
+            writeln!(self.stdin, "{mode} {}", line.join(",")).ok()?;
+        }
         self.stdin.flush().ok()?;
         let mut buf = String::new();
         let n = self.stdout.read_line(&mut buf).ok()?;
@@ -371,21 +436,45 @@ pub fn explore<S: Sys>(
                 return;
             }
             let reply = child.lock().ask(hist);
-            let Some(serde_json::Value::Array(results)) = reply else {
-                // the worker died (abort, SIGBUS, SIGSEGV): machinery-level finding
-                harness_panics.fetch_add(1, Ordering::Relaxed);
-                found.lock().push(Found {
-                    path: hist.clone(),
-                    shown: vec![],
-                    violation: Violation {
-                        property: "MACHINERY".into(),
-                        signature: "worker_died".into(),
-                        detail: "worker process died while expanding this history".into(),
-                    },
-                    known: false,
-                });
-                *child.lock() = spawn_child(engine, spec);
-                return;
+            let results = match reply {
+                Some(serde_json::Value::Array(r)) => r,
+                _ => {
+                    // The worker died (abort, SIGBUS, SIGSEGV, allocation failure). Find
+                    // the operation that kills it by executing each one in its own request.
+                    let mut c = child.lock();
+                    *c = spawn_child(engine, spec);
+                    let Some(serde_json::Value::Array(list)) = c.ask_mode("N", hist) else {
+                        harness_panics.fetch_add(1, Ordering::Relaxed);
+                        found.lock().push(Found {
+                            path: hist.clone(),
+                            shown: vec![],
+                            violation: Violation {
+                                property: "MACHINERY".into(),
+                                signature: "worker_died_replaying".into(),
+                                detail: "worker process dies while replaying this history".into(),
+                            },
+                            known: false,
+                        });
+                        *c = spawn_child(engine, spec);
+                        return;
+                    };
+                    let mut results = Vec::new();
+                    for (oi, info) in list.iter().enumerate() {
+                        match c.ask_mode(&format!("O{oi}"), hist) {
+                            Some(serde_json::Value::Array(mut r)) if r.len() == 1 => {
+                                results.push(r.remove(0))
+                            }
+                            _ => {
+                                *c = spawn_child(engine, spec);
+                                results.push(serde_json::json!({
+                                    "key": "0", "obs": 0, "c": [],
+                                    "v": [[info[1], info[2], format!("process died (abort / signal / allocation failure) executing {}", info[0])]],
+                                }));
+                            }
+                        }
+                    }
+                    results
+                }
             };
             execs.fetch_add(1 + results.len() as u64, Ordering::Relaxed);
             let mut local_next = Vec::new();
